@@ -13,7 +13,7 @@ theorem snoc_cases {α : Type} (l : List α) : l = [] ∨ ∃ l' b, l = l' ++ [b
 
 /-! ### the loop -/
 
-theorem fLoop_invA {d0 : Design} (hyp : Hyp d0) (fuel : Nat) : ∀ (s : FState) (moved : List Inst),
+theorem fLoop_invA {d0 : Design} (hyp : Hyp d0) (hnamed : Named d0) (fuel : Nat) : ∀ (s : FState) (moved : List Inst),
     FInvA d0 s moved → ∃ moved', FInvA d0 (fLoop fuel s) moved' := by
   induction fuel with
   | zero => intro s moved inv; exact ⟨moved, inv⟩
@@ -24,7 +24,7 @@ theorem fLoop_invA {d0 : Design} (hyp : Hyp d0) (fuel : Nat) : ∀ (s : FState) 
     | nil => exact ⟨moved, inv⟩
     | cons e rest =>
       obtain ⟨q, iid, pn⟩ := e
-      obtain ⟨moved', inv'⟩ := inv.step hyp
+      obtain ⟨moved', inv'⟩ := inv.step hyp hnamed
       exact ih _ moved' inv'
 
 theorem FInvA.init {d0 : Design} (hyp : Hyp d0) : FInvA d0 (fInit d0) [] where
